@@ -499,6 +499,10 @@ def subscript(it, base, idx, node, for_store=False):
         u = VUnknown(base.name + "[..]", "str" if base.name.endswith("__version__") else "unknown")
         u.not_none = True
         return u
+    if isinstance(base, VNum) or (isinstance(base, VConst) and isinstance(base.value, (int, float, bool, type(None)))):
+        from .interp import RaiseEx
+
+        raise RaiseEx("TypeError", it.site(node), "'%s' object is not subscriptable" % base.kind, True)
     raise Unsupported("subscript of %r" % (base,), node, it.site(node))
 
 
